@@ -186,7 +186,7 @@ class BX:
         if cell.get('family'):
             cmd += ['--family', cell['family']]
         if 'timeout' in f.get('sig', ''):
-            cmd += ['--subtimeout', '300']      # a timed-out sub-cell is re-run alone with a long limit before it is called a hang
+            cmd += ['--subtimeout', '30']       # (x10 in --one mode = 300 s) a timed-out sub-cell is re-run alone with a long limit before it is called a hang
         keys = []
         for _ in range(2):
             p = subprocess.run(cmd, stdout=subprocess.PIPE, stderr=subprocess.PIPE, text=True)
